@@ -105,6 +105,13 @@ theorem C05.mine_waiting_noop (n : Node) (count ts : Nat) (evs : List Ev) (hw : 
   unfold mine
   rw [if_pos hw]
 
+/-- `brc20_mine` when one of the hashes it would generate is already in use is refused without effect, before the first
+block is finalised (the Rust used to finalise the blocks before the clash and then answer an error; fixed, F16). -/
+theorem C05.mine_clash_noop (n : Node) (count ts : Nat) (evs : List Ev) (hw : n.lbi.waiting = 0)
+    (hc : n.mineClash count = true) : n.mine count ts evs = (n, .err "exists") := by
+  unfold mine
+  rw [if_neg (by simpa using hw), if_pos hc]
+
 /-! ### The block protocol -/
 
 /-- A transaction index that is not the number of transactions already in the block is refused. -/
